@@ -195,12 +195,12 @@ class EmptyTree(Harness):
 
     def __init__(self):
         self.name = "treecount.empty"
-        self.bounds = "an empty tree on either side, 2 scales, with and without separation weighting"
+        self.bounds = "an empty tree on either side, 1 scale, with and without separation weighting"
 
     def make_inputs(self, eng):
-        d = {"amin": symarr("lo", (2,)), "amax": symarr("hi", (2,)), "w": symarr("w", (1,))}
+        d = {"amin": symarr("lo", (1,)), "amax": symarr("hi", (1,)), "w": symarr("w", (1,))}
         PI = uf.pi()
-        for s in range(2):
+        for s in range(1):
             eng.assume((d["amin"][s] > 0) & (d["amin"][s] < d["amax"][s]) & (d["amax"][s] <= PI))
         d["which"] = eng.choose(3, "empty_side")
         d["weighted"] = eng.choose(2, "weighted")
@@ -220,7 +220,7 @@ class EmptyTree(Harness):
             pairs = [(e, full), (full, e), (e, e)][int(inp["which"])]
             kw = dict(weight_scale=-1.0, weight_res=3) if inp["rweight"] else {}
             got = pairs[0].count(pairs[1], inp["amin"].copy(), inp["amax"].copy(), **kw)
-            return [Check("zeros", got, np.zeros(2)), Check("empty_meta", cond=(e.num_records == 0 and e.sum_weights == 0.0))]
+            return [Check("zeros", got, np.zeros(1)), Check("empty_meta", cond=(e.num_records == 0 and e.sum_weights == 0.0))]
 
 
 class PairIteration(Harness):
@@ -344,19 +344,333 @@ class Accumulate(Harness):
         return out
 
 
+
+# ---------------------------------------------------------------------------------------------
+# L2: the patch linkage is conservative
+
+
+class LinePoints:
+    """points on a great circle (the equator): position x in [0, pi); angular distance |x - y|.
+    Symbolic stand-in for AngularCoordinates in from_catalogs / check_patch_conistency (only .distance,
+    iteration and len are used there)."""
+
+    def __init__(self, xs):
+        self.xs = list(xs)
+
+    def __len__(self):
+        return len(self.xs)
+
+    def __iter__(self):
+        for x in self.xs:
+            yield LinePoints([x])
+
+    def distance(self, other):
+        from yaw.coordinates import AngularDistances
+
+        if len(other.xs) == 1:
+            pairs = [(x, other.xs[0]) for x in self.xs]
+        else:
+            pairs = list(zip(self.xs, other.xs))
+        return AngularDistances(sarr([abs(a - b) for a, b in pairs]))
+
+
+class FakeCat:
+    def __init__(self, ids, centers, radii, nrec):
+        self._ids, self._c, self._r, self._n = list(ids), centers, radii, nrec
+
+    def keys(self):
+        return set(self._ids) if not hasattr(self, "_keys") else self._keys
+
+    def __iter__(self):
+        return iter(sorted(self._ids))
+
+    def get_centers(self):
+        return self._c
+
+    def get_radii(self):
+        return self._r
+
+    def get_num_records(self):
+        return self._n
+
+
+UNITS = ("rad", "arcmin", "kpc", "Mpc", "kpc/h", "Mpc/h")
+
+
+def theta_of(r, unit, z, cosmo):
+    """documented conversion r / D(z) -- the oracle"""
+    if unit == "rad":
+        return r
+    if unit in ("deg", "arcmin", "arcsec"):
+        f = {"deg": 1.0, "arcmin": 60.0, "arcsec": 3600.0}[unit]
+        pi = uf.pi() if isinstance(r, SV) or isinstance(z, SV) else math.pi
+        return r / f * pi / 180.0
+    if unit in ("kpc", "Mpc"):
+        rr = r / 1000.0 if unit == "kpc" else r
+        return rr / cosmo.angular_diameter_distance(z)
+    rr = r / 1000.0 if unit == "kpc/h" else r
+    return rr / cosmo.comoving_distance(z)
+
+
+class MaxAngle(Harness):
+    """L2a: the pruning angle is at least the largest angle used for pair counting in any bin"""
+
+    functions = (meas.get_max_angle, yaw.cosmology.Scales.get_angle_radian, yaw.cosmology.PhysicalScales._compute_angle,
+                 yaw.cosmology.ComovingScales._compute_angle, yaw.cosmology.AngularScales._compute_angle,
+                 yaw.cosmology.new_scales, yaw.cosmology.Scales._set_scales)
+    modules = (meas, yaw.coordinates, yaw.cosmology, yaw.binning)
+    xval = False
+
+    def __init__(self, B, S, unit, wrong=None):
+        self.B, self.S, self.unit, self.wrong = B, S, unit, wrong
+        self.name = "maxangle.B%d.S%d.%s" % (B, S, unit.replace("/", "_")) + (".twin-" + wrong if wrong else "")
+        self.bounds = "bins=%d scales=%d unit=%s; bin edges, scale limits and the cosmology's distance function symbolic" % (B, S, unit)
+        self.assumptions = ("zmin > 0", "comoving distance strictly increasing with D_C(0)=0; D_A = D_C/(1+z); nothing else "
+                            "is assumed about the cosmology")
+        self.must_fail = wrong is not None
+
+    def make_inputs(self, eng):
+        from vf.stubs.cosmology import UFCosmology
+
+        d = {"edges": symarr("e", (self.B + 1,)), "rmin": symarr("rmin", (self.S,)), "rmax": symarr("rmax", (self.S,))}
+        eng.assume(d["edges"][0] > 0)
+        for b in range(self.B):
+            eng.assume(d["edges"][b] < d["edges"][b + 1])
+        for s_ in range(self.S):
+            eng.assume((d["rmin"][s_] > 0) & (d["rmin"][s_] < d["rmax"][s_]))
+        d["_cosmo"] = UFCosmology()
+        return d
+
+    def concrete_inputs(self, m, inp):
+        from vf.stubs.cosmology import TableCosmology
+        from vf.symx import model_value
+
+        out = concretise(m, {k: inp[k] for k in ("edges", "rmin", "rmax")})
+        cosmo = inp["_cosmo"]
+        table = []
+        for a in getattr(cosmo, "_seen", []):
+            table.append((float(model_value(m, a)), float(model_value(m, cosmo.f(a)))))
+        out["_cosmo"] = TableCosmology(table)
+        return out
+
+    def body(self, inp):
+        cosmo = inp["_cosmo"]
+        e = inp["edges"]
+        if isinstance(e[0], SV):
+            cosmo._seen = Engine_apps(cosmo)
+        binning = Binning(e.copy())
+        scales = yaw.cosmology.new_scales(inp["rmin"].copy(), inp["rmax"].copy(), unit=self.unit)
+        cfg = types.SimpleNamespace(
+            binning=types.SimpleNamespace(binning=binning, zmin=e[0], zmax=e[-1], edges=e),
+            scales=types.SimpleNamespace(scales=scales, num_scales=self.S), cosmology=cosmo)
+        got = meas.get_max_angle(cfg).data[0]
+        out = []
+        for b in range(self.B):
+            zmid = (e[b] + e[b + 1]) / 2.0
+            if self.wrong == "edge":
+                zmid = e[b] / 2.0
+            for s_ in range(self.S):
+                out.append(Check("covers_bin%d_scale%d" % (b, s_), cond=(got >= theta_of(inp["rmax"][s_], self.unit, zmid, cosmo))))
+        return out
+
+
+class Linkage(Harness):
+    """L2b: with the pruning angle theta, no pair of objects closer than theta is in an unlinked patch pair"""
+
+    functions = (PatchLinkage.from_catalogs, meas.check_patch_conistency)
+    modules = (meas, yaw.coordinates, yaw.binning)
+    xval = False
+
+    def __init__(self, ncat, N=2, wrong=None):
+        self.ncat, self.N, self.wrong = ncat, N, wrong
+        self.name = "linkage.cat%d.N%d" % (ncat, N) + (".twin-" + wrong if wrong else "")
+        self.bounds = ("patches=%d catalogs=%d; pruning angle, patch centres of every catalog (on a great circle), radii, "
+                       "two witness objects symbolic; which catalog is the largest, the witnesses' catalogs and patches chosen "
+                       "by the engine") % (N, ncat)
+        self.assumptions = ("geometry restricted to points on one great circle (so that counterexamples replay with real "
+                            "coordinates)", "witness objects lie within the stored radius of their own patch centre")
+        self.must_fail = wrong is not None
+
+    def make_inputs(self, eng):
+        N, K = self.N, self.ncat
+        d = {"theta": sym("theta"), "cx": symarr("cx", (K, N)), "rad": symarr("rad", (K, N)), "px": sym("px"), "qx": sym("qx")}
+        eng.assume(d["theta"] > 0)
+        for v in list(d["cx"].ravel()) + [d["px"], d["qx"]]:
+            eng.assume((v >= 0) & (v <= 3))
+        for v in d["rad"].ravel():
+            eng.assume(v > 0)
+        d["largest"] = eng.choose(K, "largest_catalog")
+        d["wcat_p"], d["wcat_q"] = eng.choose(K, "cat_of_p"), eng.choose(K, "cat_of_q")
+        d["wi"], d["wj"] = eng.choose(N, "patch_of_p"), eng.choose(N, "patch_of_q")
+        return d
+
+    def concrete_inputs(self, m, inp):
+        out = concretise(m, {k: inp[k] for k in ("theta", "cx", "rad", "px", "qx")})
+        for k in ("largest", "wcat_p", "wcat_q", "wi", "wj"):
+            out[k] = inp[k]
+        return out
+
+    def body(self, inp):
+        from yaw.coordinates import AngularCoordinates, AngularDistances
+
+        N, K = self.N, self.ncat
+        symbolic = isinstance(inp["theta"], SV)
+        cats = []
+        for k in range(K):
+            if symbolic:
+                centers = LinePoints(list(inp["cx"][k]))
+            else:
+                centers = AngularCoordinates(np.column_stack([inp["cx"][k], np.zeros(N)]))
+            radii = AngularDistances(inp["rad"][k].copy())
+            nrec = tuple([100 if k == int(inp["largest"]) else 10 + k] * N)
+            cats.append(FakeCat(range(N), centers, radii, nrec))
+        theta = inp["theta"]
+        old = meas.get_max_angle
+        meas.get_max_angle = lambda config, *a, **k: AngularDistances(theta)
+        try:
+            try:
+                links = PatchLinkage.from_catalogs(types.SimpleNamespace(), *cats).patch_links
+            except meas.InconsistentPatchesError:
+                return [Check("misaligned_centres_rejected", cond=True)]
+        finally:
+            meas.get_max_angle = old
+        kp, kq, i, j = int(inp["wcat_p"]), int(inp["wcat_q"]), int(inp["wi"]), int(inp["wj"])
+        px, qx = inp["px"], inp["qx"]
+        lim = theta if self.wrong != "reach" else -1.0
+        pre = [abs(px - inp["cx"][kp][i]) <= inp["rad"][kp][i], abs(qx - inp["cx"][kq][j]) <= inp["rad"][kq][j],
+               abs(px - qx) <= lim]
+        out = [Check("close_pair_never_pruned", cond=implies(pre, j in links[i])),
+               Check("links_symmetric_with_diagonal", cond=(all(ii in links[ii] for ii in range(N)) and all(
+                   (jj in links[ii]) == (ii in links[jj]) for ii in range(N) for jj in range(N))))]
+        if self.wrong == "reach":
+            out.append(Check("reach", cond=False))
+        return out
+
+
+class ProcessPair(Harness):
+    """L4a: process_patch_pair counts bin b of patch 1 against (bin b of | the unbinned) patch 2 at the angles of the bin centre"""
+
+    functions = (meas.process_patch_pair, yaw.cosmology.Scales.get_angle_radian)
+    modules = (meas, yaw.coordinates, yaw.cosmology, yaw.binning)
+    xval = False
+
+    def __init__(self, B, S, unit, binned2):
+        self.B, self.S, self.unit, self.binned2 = B, S, unit, binned2
+        self.name = "processpair.B%dS%d.%s.%s" % (B, S, unit.replace("/", "_"), "auto" if binned2 else "cross")
+        self.bounds = "bins=%d scales=%d unit=%s second patch %s; edges, scale limits, tree results, weight sums symbolic" % (
+            B, S, unit, "binned" if binned2 else "unbinned")
+        self.assumptions = ("trees replaced by recorders returning fresh symbolic counts (the counting itself is lemma L1)",)
+
+    def make_inputs(self, eng):
+        from vf.stubs.cosmology import UFCosmology
+
+        d = {"edges": symarr("e", (self.B + 1,)), "rmin": symarr("rmin", (self.S,)), "rmax": symarr("rmax", (self.S,)),
+             "res": symarr("cnt", (self.B, self.S)), "sw1": symarr("sa", (self.B,)), "sw2": symarr("sb", (self.B,))}
+        eng.assume(d["edges"][0] > 0)
+        for b in range(self.B):
+            eng.assume(d["edges"][b] < d["edges"][b + 1])
+        for s_ in range(self.S):
+            eng.assume((d["rmin"][s_] > 0) & (d["rmin"][s_] < d["rmax"][s_]))
+        d["_cosmo"] = UFCosmology()
+        return d
+
+    def concrete_inputs(self, m, inp):
+        from vf.stubs.cosmology import TableCosmology
+        from vf.symx import model_value
+
+        out = concretise(m, {k: v for k, v in inp.items() if k != "_cosmo"})
+        cosmo = inp["_cosmo"]
+        out["_cosmo"] = TableCosmology([(float(model_value(m, a)), float(model_value(m, cosmo.f(a)))) for a in getattr(cosmo, "_seen", [])])
+        return out
+
+    def body(self, inp):
+        B, S = self.B, self.S
+        cosmo = inp["_cosmo"]
+        e = inp["edges"]
+        if isinstance(e[0], SV):
+            cosmo._seen = Engine_apps(cosmo)
+        log = []
+
+        class T:
+            def __init__(self, b, side, sw):
+                self.b, self.side, self.sum_weights = b, side, sw
+
+            def count(self, other, ang_min, ang_max, *, weight_scale=None, weight_res=50):
+                log.append((self.b, other.b, other.side, ang_min, ang_max, weight_scale, weight_res))
+                return inp["res"][self.b].copy()
+
+        trees1 = [T(b, 1, inp["sw1"][b]) for b in range(B)]
+        trees2 = [T(b, 2, inp["sw2"][b]) for b in range(B)] if self.binned2 else None
+        single2 = T(-1, 2, inp["sw2"][0])
+
+        class FakeBinned:
+            def __init__(self, patch):
+                self.patch = patch
+
+            def __iter__(self):
+                if self.patch == "P1":
+                    return iter(trees1)
+                if trees2 is not None:
+                    return iter(trees2)
+                import itertools
+
+                return itertools.repeat(single2)
+
+        cfg = types.SimpleNamespace(
+            binning=types.SimpleNamespace(binning=Binning(e.copy())),
+            scales=types.SimpleNamespace(scales=yaw.cosmology.new_scales(inp["rmin"].copy(), inp["rmax"].copy(), unit=self.unit),
+                                         num_scales=S, rweight=-0.5, resolution=7),
+            cosmology=cosmo)
+        old = meas.BinnedTrees
+        meas.BinnedTrees = FakeBinned
+        try:
+            r = meas.process_patch_pair(meas.PatchPair(3, 5, "P1", "P2"), cfg)
+        finally:
+            meas.BinnedTrees = old
+        out = [Check("ids", cond=(r.id1 == 3 and r.id2 == 5 and len(log) == B)),
+               Check("counts", r.counts, wrap(np.asarray(inp["res"]).T)),
+               Check("sum_weights1", r.sum_weights1, inp["sw1"]),
+               Check("sum_weights2", r.sum_weights2, inp["sw2"] if self.binned2 else vec(lambda b: inp["sw2"][0], B))]
+        for b, rec in enumerate(log[:B]):
+            zmid = (e[b] + e[b + 1]) / 2.0
+            out.append(Check("bin%d_trees" % b, cond=(rec[0] == b and rec[2] == 2 and rec[1] == (b if self.binned2 else -1))))
+            out.append(Check("bin%d_ang_min" % b, rec[3], vec(lambda s_: theta_of(inp["rmin"][s_], self.unit, zmid, cosmo), S)))
+            out.append(Check("bin%d_ang_max" % b, rec[4], vec(lambda s_: theta_of(inp["rmax"][s_], self.unit, zmid, cosmo), S)))
+            out.append(Check("bin%d_weighting" % b, cond=(rec[5] == -0.5 and rec[6] == 7)))
+        return out
+
+
+def Engine_apps(cosmo):
+    from vf.symx import Engine
+
+    return Engine.cur.uf_apps.setdefault("cosmo:" + cosmo.fname, [])
+
+
+def implies(pre, concl):
+    """all(pre) -> concl, in either mode (concl is a python bool decided on the path)"""
+    if any(isinstance(p, SB) for p in pre):
+        ps = [p.e if isinstance(p, SB) else z3.BoolVal(bool(p)) for p in pre]
+        return SB(z3.Implies(z3.And(*ps), z3.BoolVal(bool(concl))))
+    return (not all(bool(p) for p in pre)) or bool(concl)
+
+
 def harnesses(tier):
     hs = []
     if tier == "quick":
         hs += [TreeCount(1, 2, 1), TreeCount(2, 1, 2), TreeCount(1, 1, 1, res=1), EmptyTree()]
         hs += [PairIteration(3, True), PairIteration(3, False)]
         hs += [Accumulate(2, 1, 2, True), Accumulate(2, 2, 1, False)]
+        hs += [MaxAngle(1, 1, "kpc"), MaxAngle(2, 1, "Mpc/h"), MaxAngle(1, 2, "arcmin"), Linkage(2)]
+        hs += [ProcessPair(2, 2, "kpc", False), ProcessPair(2, 1, "Mpc/h", True)]
     else:
+        hs += [MaxAngle(2, 2, u) for u in UNITS] + [MaxAngle(3, 1, "kpc"), Linkage(2), Linkage(3), Linkage(2, N=3)]
+        hs += [ProcessPair(3, 2, u, bb) for u in ("kpc", "Mpc/h", "deg") for bb in (False, True)]
         hs += [TreeCount(2, 2, 1), TreeCount(2, 1, 2), TreeCount(1, 1, 3), TreeCount(1, 2, 1, res=1), TreeCount(1, 1, 1, res=2),
                TreeCount(1, 1, 2, res=1), TreeCount(1, 1, 1, res=7), EmptyTree()]
         hs += [PairIteration(4, True), PairIteration(4, False), PairIteration(5, True)]
         hs += [Accumulate(3, 2, 2, True), Accumulate(3, 2, 2, False)]
     hs += [TreeCount(1, 1, 1, wrong="closed"), TreeCount(1, 1, 1, wrong="reach"), PairIteration(3, True, wrong="ordered"),
-           Accumulate(2, 1, 1, True, wrong="nohalf")]
+           Accumulate(2, 1, 1, True, wrong="nohalf"), Linkage(2, wrong="reach"), MaxAngle(1, 1, "Mpc", wrong="edge")]
     return hs
 
 
